@@ -10,15 +10,22 @@
       `k` draws); `stdNormalVec_length`; `stdNormalVec_consumes` — words consumed = sum of the words of the draws;
     * `mvn_sample_eq`, `mvn_sample_length`, `mvn_sample_consumes` — `MultivariateNormal::sample` is
       `L·z + μ` (`LA.matvec`, `vadd`) with `z` those `n = dim` draws; the result has `dim` entries;
-    * `mvt_sample_eq_none_iff`, `mvt_sample_of_ok`, `mvt_sample_length` — `MultivariateStudent::sample` panics
-      (`none`) iff `ChiSquared::new(freedom)` fails; otherwise it is `(w·L)·z + location`, `w = sqrt(ν / c)` with `c`
-      the chi-squared (= `Gamma(ν/2, 1/2)`) variate drawn FIRST, the normals being drawn from the stream after it;
+    * `mvt_sample_of_inf`, `mvt_sample_of_inf_ne_none`, `mvt_sample_consumes_of_inf` — since 864abd5, for
+      `freedom = ±inf` (`is_infinite()`) `MultivariateStudent::sample` draws NO chi-squared variate and never panics: it
+      is `(1.0·L)·z + location` with `z` the `dim` normals drawn from the ORIGINAL stream;
+      `mvt_sample_of_inf_eq_affine`, `mvt_sample_of_inf_eq_mvn` — where `e * 1.0 = e` on the stored entries this is
+      `L·z + location`, i.e. `MultivariateNormal::sample` of the object with the same location and factor;
+    * `mvt_sample_eq_none_iff_all`, `mvt_sample_eq_none_iff`, `mvt_sample_of_ok`, `mvt_sample_length`,
+      `mvt_sample_consumes` — for a non-infinite `freedom` the sampler panics (`none`) iff `ChiSquared::new(freedom)`
+      fails; otherwise it is `(w·L)·z + location`, `w = sqrt(ν / c)` with `c` the chi-squared (= `Gamma(ν/2, 1/2)`)
+      variate drawn FIRST, the normals being drawn from the stream after it;
     * `matvec_scale_rows` is in `VectorSamplersReal.lean` (needs commutativity);
     * `empirical_sample_eq`, `empirical_sample_consumes_any` — `Empirical::sample` is `__inverse_cdf` of one
       `Uniform::new(0.0, 1.0)` draw; at most one word.
 -/
 import Statrs.Model.VecSamplers
 import Statrs.Props.C06.Structure
+import Statrs.Spec.FloatLaws
 set_option linter.unusedVariables false
 set_option linter.unusedSectionVars false
 namespace Statrs.Props.C06
@@ -285,20 +292,85 @@ theorem chiSquared_new_ok (ν : α) (s : ChiSquared α) (h : ChiSquared.new (α 
   split_ifs at h <;> simp [exceptMap] at h
   exact h.symm
 
-/-- full(∀α): `MultivariateStudent::sample` panics (`ChiSquared::new(freedom).unwrap()`) exactly when
-    `ChiSquared::new(freedom)` returns an error. -/
-theorem mvt_sample_eq_none_iff (d : MultivariateStudent α) (rng : Rng) :
-    MultivariateStudent.sample d rng = none ↔ ∃ e, ChiSquared.new (α := α) d.f_freedom = .error e := by
+/-- full(∀α): since 864abd5 — **`freedom = ±inf`** (`self.freedom.is_infinite()`): the mixing weight is the literal `1.0`,
+    NO chi-squared variate is drawn (`ChiSquared::new` is not even called, so nothing can panic), the `dim` standard
+    normals `z` are drawn from the ORIGINAL stream, and the result is `(1.0 * &scale_chol_decomp) * z + &location`
+    (every entry of the factor multiplied by `1.0` on the right). -/
+theorem mvt_sample_of_inf (d : MultivariateStudent α) (hinf : RFun.isInf d.f_freedom = true) (rng : Rng) :
+    let zs := stdNormalVec (α := α) d.f_location.length rng
+    MultivariateStudent.sample d rng
+      = some (vadd (LA.matvec (d.f_scale_chol_decomp.map (fun r => r.map (fun e => e * (1.0 : α)))) zs.1) d.f_location,
+              zs.2) := by
+  intro zs
   unfold MultivariateStudent.sample
-  cases h : ChiSquared.new (α := α) d.f_freedom with
-  | error e => simp
-  | ok s => simp
+  rw [if_pos hinf]
 
-/-- full(∀α): when `ChiSquared::new(ν)` succeeds, the sampler FIRST draws the chi-squared variate
-    `c = gamma::sample_unchecked(rng, ν / 2.0, 0.5)`, sets `w = sqrt(ν / c)`, THEN draws the `dim` standard normals
-    `z` from the stream left by the gamma draw, and returns `(w * &scale_chol_decomp) * z + &location`
-    (every entry of the factor multiplied by `w` on the right). -/
-theorem mvt_sample_of_ok (d : MultivariateStudent α) (s : ChiSquared α)
+/-- full(∀α): for `freedom = ±inf` the sampler never panics, whatever `ChiSquared::new(freedom)` would return. -/
+theorem mvt_sample_of_inf_ne_none (d : MultivariateStudent α) (hinf : RFun.isInf d.f_freedom = true) (rng : Rng) :
+    MultivariateStudent.sample d rng ≠ none := by
+  have := mvt_sample_of_inf d hinf rng
+  simp only at this
+  rw [this]; exact Option.some_ne_none _
+
+/-- full(∀α): on a carrier where multiplying the stored entries by the literal `1.0` returns them unchanged
+    (`e * 1.0 = e`: `ring` over ℝ, `xr_mul_one_lit` on the exact-value carrier `XR`; for IEEE `Float` only up to `==`
+    and for non-NaN `e`, see `mvt_sample_of_inf_sim` below), the `freedom = ±inf` sample is the
+    MultivariateNormal-style affine image `(&scale_chol_decomp * z) + &location` of the `dim` standard normals drawn
+    from the original stream. -/
+theorem mvt_sample_of_inf_eq_affine (d : MultivariateStudent α) (hinf : RFun.isInf d.f_freedom = true)
+    (hmul : ∀ r ∈ d.f_scale_chol_decomp, ∀ e ∈ r, e * (1.0 : α) = e) (rng : Rng) :
+    let zs := stdNormalVec (α := α) d.f_location.length rng
+    MultivariateStudent.sample d rng
+      = some (vadd (LA.matvec d.f_scale_chol_decomp zs.1) d.f_location, zs.2) := by
+  intro zs
+  have hid : d.f_scale_chol_decomp.map (fun r => r.map (fun e => e * (1.0 : α))) = d.f_scale_chol_decomp := by
+    conv_rhs => rw [← List.map_id d.f_scale_chol_decomp]
+    apply List.map_congr_left
+    intro r hr
+    conv_rhs => rw [id, ← List.map_id r]
+    apply List.map_congr_left
+    intro e he
+    exact hmul r hr e he
+  have := mvt_sample_of_inf d hinf rng
+  simp only at this
+  rw [this, hid]
+
+/-- full(∀α): … i.e. it IS `MultivariateNormal::sample` (same values, same stream afterwards) of any
+    `MultivariateNormal` whose `mu` is the location and whose stored Cholesky factor is the stored scale factor. -/
+theorem mvt_sample_of_inf_eq_mvn (d : MultivariateStudent α) (hinf : RFun.isInf d.f_freedom = true)
+    (hmul : ∀ r ∈ d.f_scale_chol_decomp, ∀ e ∈ r, e * (1.0 : α) = e)
+    (m : MultivariateNormal α) (hmu : m.f_mu = d.f_location) (hch : m.f_cov_chol_decomp = d.f_scale_chol_decomp)
+    (rng : Rng) :
+    MultivariateStudent.sample d rng = some (MultivariateNormal.sample m rng) := by
+  have := mvt_sample_of_inf_eq_affine d hinf hmul rng
+  simp only at this
+  rw [this, mvn_sample_eq, hmu, hch]
+
+/-- full(∀α): `MultivariateStudent::sample` panics (`ChiSquared::new(freedom).unwrap()`) exactly when `freedom` is NOT
+    infinite and `ChiSquared::new(freedom)` returns an error (complete characterisation, no hypothesis). -/
+theorem mvt_sample_eq_none_iff_all (d : MultivariateStudent α) (rng : Rng) :
+    MultivariateStudent.sample d rng = none ↔
+      RFun.isInf d.f_freedom = false ∧ ∃ e, ChiSquared.new (α := α) d.f_freedom = .error e := by
+  unfold MultivariateStudent.sample
+  cases hinf : RFun.isInf d.f_freedom with
+  | true => simp
+  | false =>
+    cases h : ChiSquared.new (α := α) d.f_freedom with
+    | error e => simp
+    | ok s => simp
+
+/-- full(∀α): for a non-infinite `freedom`, `MultivariateStudent::sample` panics
+    (`ChiSquared::new(freedom).unwrap()`) exactly when `ChiSquared::new(freedom)` returns an error. -/
+theorem mvt_sample_eq_none_iff (d : MultivariateStudent α) (hfin : RFun.isInf d.f_freedom = false) (rng : Rng) :
+    MultivariateStudent.sample d rng = none ↔ ∃ e, ChiSquared.new (α := α) d.f_freedom = .error e := by
+  rw [mvt_sample_eq_none_iff_all, hfin]
+  simp
+
+/-- full(∀α): for a non-infinite `freedom` for which `ChiSquared::new(ν)` succeeds, the sampler FIRST draws the
+    chi-squared variate `c = gamma::sample_unchecked(rng, ν / 2.0, 0.5)`, sets `w = sqrt(ν / c)`, THEN draws the `dim`
+    standard normals `z` from the stream left by the gamma draw, and returns
+    `(w * &scale_chol_decomp) * z + &location` (every entry of the factor multiplied by `w` on the right). -/
+theorem mvt_sample_of_ok (d : MultivariateStudent α) (hfin : RFun.isInf d.f_freedom = false) (s : ChiSquared α)
     (h : ChiSquared.new (α := α) d.f_freedom = .ok s) (rng : Rng) :
     let g := gamma_sample_unchecked (α := α) rng (d.f_freedom / (2.0 : α)) (0.5 : α)
     let w := RFun.sqrt (d.f_freedom / g.1)
@@ -309,26 +381,35 @@ theorem mvt_sample_of_ok (d : MultivariateStudent α) (s : ChiSquared α)
   intro g w zs
   have hs := chiSquared_new_ok _ s h
   unfold MultivariateStudent.sample
-  rw [h]
+  rw [if_neg (by rw [hfin]; exact Bool.false_ne_true), h]
   simp only [ChiSquared.sample_f64, Gamma.sample_f64, hs]
   rfl
 
-/-- full(∀α): a successful sample has `dim` entries when the stored factor has `dim` rows -/
+/-- full(∀α): a successful sample has `dim` entries when the stored factor has `dim` rows (both for infinite and for
+    non-infinite `freedom`). -/
 theorem mvt_sample_length (d : MultivariateStudent α) (hL : d.f_scale_chol_decomp.length = d.f_location.length)
     (rng : Rng) (v : List α × Rng) (h : MultivariateStudent.sample d rng = some v) :
     v.1.length = d.f_location.length := by
-  unfold MultivariateStudent.sample at h
-  cases hn : ChiSquared.new (α := α) d.f_freedom with
-  | error e => rw [hn] at h; cases h
-  | ok s =>
-    rw [hn] at h
-    simp only [Option.some.injEq] at h
-    rw [← h]
+  cases hinf : RFun.isInf d.f_freedom with
+  | true =>
+    have := mvt_sample_of_inf d hinf rng
+    simp only at this
+    rw [this] at h
+    rw [← Option.some.inj h]
     simp only [vadd_length, matvec_length, List.length_map, hL, min_self]
+  | false =>
+    unfold MultivariateStudent.sample at h
+    rw [if_neg (by rw [hinf]; exact Bool.false_ne_true)] at h
+    cases hn : ChiSquared.new (α := α) d.f_freedom with
+    | error e => rw [hn] at h; cases h
+    | ok s =>
+      rw [hn] at h
+      rw [← Option.some.inj h]
+      simp only [vadd_length, matvec_length, List.length_map, hL, min_self]
 
-/-- full(∀α): words consumed by a successful `MultivariateStudent::sample`: those of the gamma draw, then those of the
-    `dim` ziggurat draws. -/
-theorem mvt_sample_consumes (d : MultivariateStudent α) (s : ChiSquared α)
+/-- full(∀α): words consumed by a successful `MultivariateStudent::sample` with non-infinite `freedom`: those of the
+    gamma draw, then those of the `dim` ziggurat draws. -/
+theorem mvt_sample_consumes (d : MultivariateStudent α) (hfin : RFun.isInf d.f_freedom = false) (s : ChiSquared α)
     (h : ChiSquared.new (α := α) d.f_freedom = .ok s) (rng : Rng) (v : List α × Rng)
     (hv : MultivariateStudent.sample d rng = some v) :
     let g := gamma_sample_unchecked (α := α) rng (d.f_freedom / (2.0 : α)) (0.5 : α)
@@ -336,13 +417,219 @@ theorem mvt_sample_consumes (d : MultivariateStudent α) (s : ChiSquared α)
       (∀ i (hi : i < ks.length), Consumes (normalState (α := α) g.2 i) (normalState (α := α) g.2 (i + 1)) ks[i]) ∧
       Consumes g.2 v.2 ks.sum := by
   intro g
-  have := mvt_sample_of_ok d s h rng
+  have := mvt_sample_of_ok d hfin s h rng
   simp only at this
   rw [this] at hv
   obtain ⟨ks, h1, h2, h3⟩ := stdNormalVec_consumes (α := α) d.f_location.length g.2
   refine ⟨ks, h1, h2, ?_⟩
   rw [← Option.some.inj hv]
   exact h3
+
+/-- full(∀α): words consumed by `MultivariateStudent::sample` with `freedom = ±inf`: exactly those of the `dim`
+    ziggurat draws, counted from the ORIGINAL stream (no gamma draw) — the same words as `MultivariateNormal::sample`
+    (`mvn_sample_consumes`). -/
+theorem mvt_sample_consumes_of_inf (d : MultivariateStudent α) (hinf : RFun.isInf d.f_freedom = true) (rng : Rng) :
+    ∃ v, MultivariateStudent.sample d rng = some v ∧
+    ∃ ks : List Nat, ks.length = d.f_location.length ∧
+      (∀ i (hi : i < ks.length), Consumes (normalState (α := α) rng i) (normalState (α := α) rng (i + 1)) ks[i]) ∧
+      Consumes rng v.2 ks.sum := by
+  have := mvt_sample_of_inf d hinf rng
+  simp only at this
+  exact ⟨_, this, stdNormalVec_consumes (α := α) d.f_location.length rng⟩
+
+/-! ### `freedom = ±inf` on a floating-point carrier: `(1.0·L)·z + location ≈ L·z + location`
+
+  On IEEE `Float` the law `e * 1.0 = e` holds only up to IEEE equality `==` and only for non-NaN `e`
+  (`Statrs.Spec.ExactLaws.mul_one`).  The relation that survives the `gemv` is "IEEE-equal, or both NaN" (`Sim`): it is
+  respected by `+` and `*` on every carrier satisfying the order / exactness / NaN laws of `Statrs/Spec/FloatLaws.lean`
+  (all proved for `Float`, `Props/Common/FloatLawsFloat_*.lean`). -/
+
+/-- "the same IEEE value": IEEE-equal (`==`: equal non-NaN values, `-0.0 == 0.0`), or both NaN -/
+def Sim (a b : α) : Prop := (a == b) = true ∨ (RFun.isNaN a = true ∧ RFun.isNaN b = true)
+
+section laws
+open Statrs.Spec
+variable (O : OrderLaws α) (E : ExactLaws α) (N : NaNLaws α)
+include O
+
+/-- rel(OrderLaws): `Sim` is reflexive -/
+theorem Sim.refl (a : α) : Sim a a := by
+  cases h : RFun.isNaN a with
+  | true => exact Or.inr ⟨h, h⟩
+  | false => exact Or.inl ((O.beq_iff a a).2 ⟨O.le_refl a h, O.le_refl a h⟩)
+
+/-- rel(OrderLaws): IEEE equality is symmetric -/
+theorem beq_symm_of_laws {a b : α} (h : (a == b) = true) : (b == a) = true :=
+  (O.beq_iff b a).2 ((O.beq_iff a b).1 h).symm
+
+/-- rel(OrderLaws): IEEE-equal values are not NaN -/
+theorem nn_of_beq {a b : α} (h : (a == b) = true) : NN a ∧ NN b :=
+  ⟨O.le_nn_left a b ((O.beq_iff a b).1 h).1, O.le_nn_right a b ((O.beq_iff a b).1 h).1⟩
+
+/-- rel(OrderLaws): `Sim` is symmetric -/
+theorem Sim.symm {a b : α} (h : Sim a b) : Sim b a := by
+  rcases h with h | ⟨h1, h2⟩
+  · exact Or.inl (beq_symm_of_laws O h)
+  · exact Or.inr ⟨h2, h1⟩
+
+include E N
+
+/-- rel(OrderLaws, ExactLaws, NaNLaws): `e * 1.0` is the same IEEE value as `e`, for EVERY `e` (NaN included) -/
+theorem Sim.mul_one (e : α) : Sim (e * (1.0 : α)) e := by
+  cases h : RFun.isNaN e with
+  | true => exact Or.inr ⟨N.nan_mul e _ (Or.inl h), h⟩
+  | false => exact Or.inl (E.mul_one e h)
+
+/-- rel(OrderLaws, ExactLaws, NaNLaws): multiplication respects `Sim` -/
+theorem Sim.mul {a a' b b' : α} (ha : Sim a a') (hb : Sim b b') : Sim (a * b) (a' * b') := by
+  rcases ha with ha | ⟨ha, ha'⟩
+  · rcases hb with hb | ⟨hb, hb'⟩
+    · cases h : RFun.isNaN (a * b) with
+      | false => exact Or.inl (E.mul_congr a a' b b' ha hb h)
+      | true =>
+        refine Or.inr ⟨h, ?_⟩
+        cases h' : RFun.isNaN (a' * b') with
+        | true => rfl
+        | false =>
+          have := E.mul_congr a' a b' b (beq_symm_of_laws O ha) (beq_symm_of_laws O hb) h'
+          have := (nn_of_beq O this).2
+          exact absurd (h.symm.trans this) (by decide)
+    · exact Or.inr ⟨N.nan_mul a b (Or.inr hb), N.nan_mul a' b' (Or.inr hb')⟩
+  · exact Or.inr ⟨N.nan_mul a b (Or.inl ha), N.nan_mul a' b' (Or.inl ha')⟩
+
+/-- rel(OrderLaws, ExactLaws, NaNLaws): addition respects `Sim` -/
+theorem Sim.add {a a' b b' : α} (ha : Sim a a') (hb : Sim b b') : Sim (a + b) (a' + b') := by
+  rcases ha with ha | ⟨ha, ha'⟩
+  · rcases hb with hb | ⟨hb, hb'⟩
+    · cases h : RFun.isNaN (a + b) with
+      | false => exact Or.inl (E.add_congr a a' b b' ha hb h)
+      | true =>
+        refine Or.inr ⟨h, ?_⟩
+        cases h' : RFun.isNaN (a' + b') with
+        | true => rfl
+        | false =>
+          have := E.add_congr a' a b' b (beq_symm_of_laws O ha) (beq_symm_of_laws O hb) h'
+          have := (nn_of_beq O this).2
+          exact absurd (h.symm.trans this) (by decide)
+    · exact Or.inr ⟨N.nan_add a b (Or.inr hb), N.nan_add a' b' (Or.inr hb')⟩
+  · exact Or.inr ⟨N.nan_add a b (Or.inl ha), N.nan_add a' b' (Or.inl ha')⟩
+
+omit O E N in
+/-- full: `zipWith` of related lists by related-preserving functions -/
+theorem forall₂_zipWith {β γ δ : Type} {R : β → β → Prop} {S : γ → γ → Prop} {T : δ → δ → Prop} {f g : β → γ → δ}
+    (hfg : ∀ a a' b b', R a a' → S b b' → T (f a b) (g a' b')) :
+    ∀ {l l' : List β} {m m' : List γ}, List.Forall₂ R l l' → List.Forall₂ S m m' →
+      List.Forall₂ T (List.zipWith f l m) (List.zipWith g l' m') := by
+  intro l l' m m' h1
+  induction h1 generalizing m m' with
+  | nil => intro _; simp
+  | cons hab _ ih =>
+    intro h2
+    cases h2 with
+    | nil => simp
+    | cons hcd h2' => simp only [List.zipWith_cons_cons]; exact List.Forall₂.cons (hfg _ _ _ _ hab hcd) (ih h2')
+
+omit O E N in
+/-- full: `map` of related lists by related-preserving functions -/
+theorem forall₂_map {β δ : Type} {R : β → β → Prop} {T : δ → δ → Prop} {f g : β → δ}
+    (hfg : ∀ a a', R a a' → T (f a) (g a')) :
+    ∀ {l l' : List β}, List.Forall₂ R l l' → List.Forall₂ T (l.map f) (l'.map g) := by
+  intro l l' h1
+  induction h1 with
+  | nil => simp
+  | cons hab _ ih => simp only [List.map_cons]; exact List.Forall₂.cons (hfg _ _ hab) ih
+
+omit E N in
+/-- rel(OrderLaws): entry `j` of related rows (both `default` when `j` is out of range) -/
+theorem sim_getD {r r' : List α} (h : List.Forall₂ Sim r r') (j : Nat) : Sim (r.getD j default) (r'.getD j default) := by
+  induction h generalizing j with
+  | nil => simpa using Sim.refl O (default : α)
+  | cons hab _ ih =>
+    cases j with
+    | zero => simpa using hab
+    | succ j => simpa using ih j
+
+omit E N in
+/-- rel(OrderLaws): columns of entry-wise related matrices are related -/
+theorem sim_col {a a' : List (List α)} (h : List.Forall₂ (List.Forall₂ Sim) a a') (j : Nat) :
+    List.Forall₂ Sim (LA.col a j) (LA.col a' j) := by
+  unfold LA.col
+  exact forall₂_map (R := List.Forall₂ Sim) (T := Sim) (fun r r' hr => sim_getD O hr j) h
+
+/-- rel(OrderLaws, ExactLaws, NaNLaws): the accumulated `gemv` columns of entry-wise related matrices are related -/
+theorem sim_gemvCols {a a' : List (List α)} (h : List.Forall₂ (List.Forall₂ Sim) a a') :
+    ∀ (xs : List α) (j : Nat) {y y' : List α}, List.Forall₂ Sim y y' →
+      List.Forall₂ Sim (LA.gemvCols a j xs y) (LA.gemvCols a' j xs y') := by
+  intro xs
+  induction xs with
+  | nil => intro j y y' hy; simpa [LA.gemvCols] using hy
+  | cons x xs ih =>
+    intro j y y' hy
+    rw [LA.gemvCols, LA.gemvCols]
+    apply ih
+    refine forall₂_zipWith (R := Sim) (S := Sim) (T := Sim) ?_ (sim_col O h j) hy
+    intro e e' u u' he hu
+    exact Sim.add O E N (Sim.mul O E N (Sim.mul O E N (Sim.refl O _) he) (Sim.refl O _))
+      (Sim.mul O E N (Sim.refl O _) hu)
+
+/-- rel(OrderLaws, ExactLaws, NaNLaws): `&a * &x` of entry-wise related matrices (same `x`) are entry-wise related -/
+theorem sim_matvec {a a' : List (List α)} (h : List.Forall₂ (List.Forall₂ Sim) a a') (x : List α) :
+    List.Forall₂ Sim (LA.matvec a x) (LA.matvec a' x) := by
+  cases x with
+  | nil =>
+    simp only [LA.matvec]
+    exact forall₂_map (R := List.Forall₂ Sim) (fun _ _ _ => Sim.refl O _) h
+  | cons x0 xs =>
+    simp only [LA.matvec]
+    apply sim_gemvCols O E N h
+    exact forall₂_map (R := Sim) (fun e e' he => Sim.mul O E N (Sim.mul O E N (Sim.refl O _) he) (Sim.refl O _))
+      (sim_col O h 0)
+
+/-- rel(OrderLaws, ExactLaws, NaNLaws): `1.0 * &m` (every entry `e * 1.0`) is entry-wise the same IEEE matrix as `m` -/
+theorem sim_scale_one (m : List (List α)) :
+    List.Forall₂ (List.Forall₂ Sim) (m.map (fun r => r.map (fun e => e * (1.0 : α)))) m := by
+  induction m with
+  | nil => simp
+  | cons r m ih =>
+    simp only [List.map_cons]
+    refine List.Forall₂.cons ?_ ih
+    induction r with
+    | nil => simp
+    | cons e r ihr => simp only [List.map_cons]; exact List.Forall₂.cons (Sim.mul_one O E N e) ihr
+
+/-- rel(OrderLaws, ExactLaws, NaNLaws): **`freedom = ±inf` on a floating-point carrier.**  On every carrier satisfying
+    the order / exactness / NaN laws of IEEE arithmetic (`Float`: `mvt_sample_of_inf_float`), the sample of a
+    `MultivariateStudent` with infinite `freedom` is — entry by entry, up to IEEE equality, NaN entries matching NaN
+    entries — the MultivariateNormal-style affine image `(&scale_chol_decomp * z) + &location`, with `z` the `dim`
+    standard normals drawn from the ORIGINAL stream; the stream afterwards is the one left by those normals.  No
+    hypothesis on the entries (NaN and ±inf entries included). -/
+theorem mvt_sample_of_inf_sim (d : MultivariateStudent α) (hinf : RFun.isInf d.f_freedom = true) (rng : Rng) :
+    let zs := stdNormalVec (α := α) d.f_location.length rng
+    ∃ v, MultivariateStudent.sample d rng = some v ∧ v.2 = zs.2 ∧
+      List.Forall₂ Sim v.1 (vadd (LA.matvec d.f_scale_chol_decomp zs.1) d.f_location) := by
+  intro zs
+  have := mvt_sample_of_inf d hinf rng
+  simp only at this
+  refine ⟨_, this, rfl, ?_⟩
+  unfold vadd
+  refine forall₂_zipWith (R := Sim) (S := Sim) (T := Sim) (fun a a' b b' ha hb => Sim.add O E N ha hb)
+    (sim_matvec O E N (sim_scale_one O E N _) _) ?_
+  exact List.forall₂_same.2 (fun x _ => Sim.refl O x)
+
+/-- rel(OrderLaws, ExactLaws, NaNLaws): … i.e. it is `MultivariateNormal::sample` of any `MultivariateNormal` whose `mu`
+    is the location and whose stored Cholesky factor is the stored scale factor: same stream afterwards, entries the
+    same IEEE values. -/
+theorem mvt_sample_of_inf_sim_mvn (d : MultivariateStudent α) (hinf : RFun.isInf d.f_freedom = true)
+    (m : MultivariateNormal α) (hmu : m.f_mu = d.f_location) (hch : m.f_cov_chol_decomp = d.f_scale_chol_decomp)
+    (rng : Rng) :
+    ∃ v, MultivariateStudent.sample d rng = some v ∧ v.2 = (MultivariateNormal.sample m rng).2 ∧
+      List.Forall₂ Sim v.1 (MultivariateNormal.sample m rng).1 := by
+  have := mvt_sample_of_inf_sim O E N d hinf rng
+  simp only at this
+  rw [mvn_sample_eq, hmu, hch]
+  exact this
+
+end laws
 
 /-! ### `Empirical::sample` -/
 
